@@ -13,6 +13,9 @@ package main
 // Scenario `ctxcancel`: as above with one selected session, but the context given to Server.Serve is
 // cancelled first (theorem teardown_ctxcancel_hang_witness: removeState fails before
 // statesWG.Done()); a Close that does not return is reported with a replay.
+// Scenario `snaprace` (only with -snaprace, meant for the -race build, see o_c19race.go): sessions A and
+// B select the same mailbox; B keeps deleting+expunging and logging out while A keeps issuing
+// commands: removeState(B) reads A's snapshot (other.HasMessage) from B's goroutine (finding #13b).
 // Scenario `errch` (report only): three unauthenticated sessions, Serve context cancelled, nobody
 // reads GetErrorCh: the serveErrCh consumer goroutine survives Server.Close (#13a at server.go).
 
@@ -167,6 +170,14 @@ func runTeardown(sc tdScenario, watchdog time.Duration) tdOutcome {
 		return out
 	}
 	var clients []*tdClient
+	if sc.kind == "snaprace" {
+		rounds := 5
+		fmt.Sscan(sc.sessions[0], &rounds)
+		if err := tdSnapRace(l.Addr().String(), rounds, conn); err != nil {
+			out.setupErr = "snaprace: " + err.Error()
+		}
+		sc.sessions = nil
+	}
 	stopLoops := make(chan struct{})
 	loopsDone := make(chan struct{}, len(sc.sessions))
 	loops := 0
@@ -259,6 +270,73 @@ func runTeardown(sc tdScenario, watchdog time.Duration) tdOutcome {
 	return out
 }
 
+// tdSnapRace: A and B select the same mailbox; the connector deletes messages (they get marked as
+// deleted in the DB and expunge updates go to A and B); B logs out at once while A is busy.
+func tdSnapRace(addr string, rounds int, conn *connector.Dummy) error {
+	if err := conn.MailboxCreated(imap.Mailbox{ID: "c19shared", Name: []string{"shared"}, Flags: imap.NewFlagSet(`\Seen`), PermanentFlags: imap.NewFlagSet(`\Seen`), Attributes: imap.NewFlagSet()}); err != nil {
+		return err
+	}
+	conn.Flush()
+	a, err := tdDial(addr)
+	if err != nil {
+		return err
+	}
+	defer a.c.Close()
+	if r, err := a.cmd("a", "LOGIN user pass"); err != nil || !strings.HasPrefix(r, "a OK") {
+		return fmt.Errorf("login A: %v %q", err, r)
+	}
+	if r, err := a.cmd("c", "SELECT shared"); err != nil || !strings.HasPrefix(r, "c OK") {
+		return fmt.Errorf("select A: %v %q", err, r)
+	}
+	msg := []byte("From: a@example.com\r\nTo: b@example.com\r\nDate: Mon, 02 Jan 2006 15:04:05 +0000\r\nSubject: s\r\n\r\nbody\r\n")
+	for round := 0; round < rounds; round++ {
+		var ids []imap.MessageID
+		for i := 0; i < 12; i++ {
+			id := imap.MessageID(fmt.Sprintf("c19-%d-%d", round, i))
+			if err := conn.MessageCreated(imap.Message{ID: id, Flags: imap.NewFlagSet(), Date: time.Unix(1136214245, 0).UTC()}, msg, []imap.MailboxID{"c19shared"}); err != nil {
+				return err
+			}
+			ids = append(ids, id)
+		}
+		conn.Flush()
+		b, err := tdDial(addr)
+		if err != nil {
+			return err
+		}
+		if r, err := b.cmd("a", "LOGIN user pass"); err != nil || !strings.HasPrefix(r, "a OK") {
+			return fmt.Errorf("login B: %v %q", err, r)
+		}
+		if r, err := b.cmd("c", "SELECT shared"); err != nil || !strings.HasPrefix(r, "c OK") {
+			return fmt.Errorf("select B: %v %q", err, r)
+		}
+		stop := make(chan struct{})
+		done := make(chan struct{})
+		go func() {
+			defer close(done)
+			for k := 0; ; k++ {
+				select {
+				case <-stop:
+					return
+				default:
+				}
+				if _, err := a.cmd(fmt.Sprintf("n%d", k), Pick(NewRng(uint64(k)), []string{"NOOP", "FETCH 1:* (FLAGS)", "CHECK"})); err != nil {
+					return
+				}
+			}
+		}()
+		for _, id := range ids {
+			_ = conn.MessageDeleted(id)
+		}
+		conn.Flush()
+		_, _ = b.cmd("f", "LOGOUT")
+		_ = b.c.Close()
+		time.Sleep(30 * time.Millisecond)
+		close(stop)
+		<-done
+	}
+	return nil
+}
+
 func runOracleTeardown(args []string) int {
 	fs := flag.NewFlagSet("c19teardown", flag.ExitOnError)
 	seed := fs.Uint64("seed", 1, "seed")
@@ -266,6 +344,8 @@ func runOracleTeardown(args []string) int {
 	replayDir := fs.String("replaydir", "replay", "where replay files go")
 	replay := fs.String("replay", "", "replay file")
 	n := fs.Int("n", 6, "number of teardown scenarios")
+	snaprace := fs.Int("snaprace", 0, "rounds of the snapshot-race scenario (for the -race build)")
+	noHang := fs.Bool("nohang", false, "skip the ctxcancel / errch scenarios")
 	_ = fs.Parse(args)
 	logrus.SetLevel(logrus.PanicLevel)
 	res := &oracleResult{Stats: map[string]int{}, Samples: []map[string]any{}, Violations: []oracleViolation{}}
@@ -278,7 +358,7 @@ func runOracleTeardown(args []string) int {
 		}
 		for _, line := range strings.Split(string(data), "\n") {
 			w := strings.Fields(line)
-			if len(w) == 3 && (w[0] == "teardown" || w[0] == "ctxcancel" || w[0] == "errch") {
+			if len(w) == 3 && (w[0] == "teardown" || w[0] == "ctxcancel" || w[0] == "errch" || w[0] == "snaprace") {
 				scs = append(scs, tdScenario{kind: w[0], how: strings.TrimPrefix(w[1], "how="), sessions: strings.Split(strings.TrimPrefix(w[2], "sessions="), ",")})
 			}
 		}
@@ -291,9 +371,14 @@ func runOracleTeardown(args []string) int {
 			}
 			scs = append(scs, sc)
 		}
-		scs = append(scs, tdScenario{kind: "errch", how: "close", sessions: []string{"preauth", "preauth", "preauth"}})
-		// last: it wedges the server it runs on
-		scs = append(scs, tdScenario{kind: "ctxcancel", how: "close", sessions: []string{"selected"}})
+		if *snaprace > 0 {
+			scs = append(scs, tdScenario{kind: "snaprace", how: "close", sessions: []string{fmt.Sprint(*snaprace)}})
+		}
+		if !*noHang {
+			scs = append(scs, tdScenario{kind: "errch", how: "close", sessions: []string{"preauth", "preauth", "preauth"}})
+			// last: it wedges the server it runs on
+			scs = append(scs, tdScenario{kind: "ctxcancel", how: "close", sessions: []string{"selected"}})
+		}
 	}
 	for _, sc := range scs {
 		wd := 20 * time.Second
